@@ -491,7 +491,13 @@ func TestC18(t *testing.T) {
 }
 
 // c18RealEngine: bulk elements with outcomes known by construction, executed by a real Commander.
-func c18RealEngine(rt *rapid.T, c *evid.Collector) {
+func c18RealEngine(rt *rapid.T, c *evid.Collector) { bulkOverEngine(rt, c, "C18") }
+
+// bulkOverEngine serves one generated bulk through the real v2 router over a real Commander (elements whose
+// outcome is known by construction, some carrying an idempotency key of their own) and compares the answer and
+// the persisted log with the request. prop is the property whose check runs it (C18, and C06 for the
+// acknowledged-means-persisted reading of the same observation).
+func bulkOverEngine(rt *rapid.T, c *evid.Collector, prop string) {
 	store, commander, stop := enginesim.Standalone()
 	defer stop()
 	be := httpsim.NewFakeBackend()
@@ -566,7 +572,11 @@ func c18RealEngine(rt *rapid.T, c *evid.Collector) {
 	}
 	cont := rapid.Bool().Draw(rt, "rcont")
 	var parts []string
-	for _, e := range els {
+	for i, e := range els {
+		// some elements carry an idempotency key of their own (never reused): it is theirs alone
+		if rapid.IntRange(0, 2).Draw(rt, "rik") == 0 && strings.HasPrefix(e.body, `{"action":"`) {
+			e.body = `{"ik":"rik-` + fmt.Sprint(i) + `",` + e.body[1:]
+		}
 		parts = append(parts, e.body)
 	}
 	body := "[" + strings.Join(parts, ",") + "]"
@@ -619,14 +629,14 @@ func c18RealEngine(rt *rapid.T, c *evid.Collector) {
 	if aborted {
 		// the request died at that element: the answer need not be positional, but it must not look like a success
 		if rec.Code < 400 {
-			fail("C18/abort-not-signalled", "element %d cannot be executed at all and the request was answered with status %d", processed[len(processed)-1], rec.Code)
+			fail(prop+"/abort-not-signalled", "element %d cannot be executed at all and the request was answered with status %d", processed[len(processed)-1], rec.Code)
 			return
 		}
 	} else if err := json.Unmarshal(rec.Body.Bytes(), &resp); err != nil {
-		fail("C18/response-undecodable", "response does not decode: %v", err)
+		fail(prop+"/response-undecodable", "response does not decode: %v", err)
 		return
 	} else if len(resp.Data) != len(processed) {
-		fail("C18/result-count", "the response has %d result(s) for %d processed element(s)", len(resp.Data), len(processed))
+		fail(prop+"/result-count", "the response has %d result(s) for %d processed element(s)", len(resp.Data), len(processed))
 		return
 	}
 	for pi, i := range processed {
@@ -635,12 +645,12 @@ func c18RealEngine(rt *rapid.T, c *evid.Collector) {
 		}
 		isErr := resp.Data[pi].ResponseType == "ERROR"
 		if isErr == els[i].ok {
-			fail("C18/position", "result %d says error=%v but element %d (%s) %s", pi, isErr, i, els[i].kind, map[bool]string{true: "must succeed", false: "must fail"}[els[i].ok])
+			fail(prop+"/position", "result %d says error=%v but element %d (%s) %s", pi, isErr, i, els[i].kind, map[bool]string{true: "must succeed", false: "must fail"}[els[i].ok])
 			return
 		}
 	}
 	if anyFailed != (rec.Code >= 400) {
-		fail("C18/status", "status %d although failed=%v", rec.Code, anyFailed)
+		fail(prop+"/status", "status %d although failed=%v", rec.Code, anyFailed)
 		return
 	}
 	// the persisted log holds exactly the successful processed elements, in order
@@ -664,6 +674,6 @@ func c18RealEngine(rt *rapid.T, c *evid.Collector) {
 		}
 	}
 	if strings.Join(got, ",") != strings.Join(want, ",") {
-		fail("C18/real-engine-log", "the log holds %v, the bulk defines %v (executed strictly in order, stopping at the first failure unless asked to continue)", got, want)
+		fail(prop+"/real-engine-log", "the log holds %v, the bulk defines %v (executed strictly in order, stopping at the first failure unless asked to continue)", got, want)
 	}
 }
